@@ -105,8 +105,47 @@ let sem_case line =
       Buffer.contents buf
   | _ -> failwith "bad sem case"
 
+(* names of the table entries (trusted glue): uv wrapper <-> constructor, pthread call -> name *)
+let uv_names = [
+  "uv_mutex_init", UvMutexInit; "uv_mutex_destroy", UvMutexDestroy; "uv_mutex_lock", UvMutexLock;
+  "uv_mutex_trylock", UvMutexTrylock; "uv_mutex_unlock", UvMutexUnlock;
+  "uv_rwlock_init", UvRwlockInit; "uv_rwlock_destroy", UvRwlockDestroy; "uv_rwlock_rdlock", UvRwlockRdlock;
+  "uv_rwlock_tryrdlock", UvRwlockTryrdlock; "uv_rwlock_rdunlock", UvRwlockRdunlock;
+  "uv_rwlock_wrlock", UvRwlockWrlock; "uv_rwlock_trywrlock", UvRwlockTrywrlock; "uv_rwlock_wrunlock", UvRwlockWrunlock;
+  "uv_sem_init", UvSemInit; "uv_sem_destroy", UvSemDestroy; "uv_sem_post", UvSemPost; "uv_sem_wait", UvSemWait;
+  "uv_sem_trywait", UvSemTrywait;
+  "uv_cond_destroy", UvCondDestroy; "uv_cond_signal", UvCondSignal; "uv_cond_broadcast", UvCondBroadcast;
+  "uv_cond_wait", UvCondWait; "uv_cond_timedwait", UvCondTimedwait;
+  "uv_once", UvOnce; "uv_key_create", UvKeyCreate; "uv_key_delete", UvKeyDelete; "uv_key_get", UvKeyGet;
+  "uv_key_set", UvKeySet; "uv_thread_join", UvThreadJoin;
+  "uv_barrier_init", UvBarrierInit; "uv_barrier_wait", UvBarrierWait; "uv_barrier_destroy", UvBarrierDestroy ]
+let p_name = function
+  | PMutexInit -> "pthread_mutex_init" | PMutexDestroy -> "pthread_mutex_destroy" | PMutexLock -> "pthread_mutex_lock"
+  | PMutexTrylock -> "pthread_mutex_trylock" | PMutexUnlock -> "pthread_mutex_unlock"
+  | PRwInit -> "pthread_rwlock_init" | PRwDestroy -> "pthread_rwlock_destroy" | PRwRdlock -> "pthread_rwlock_rdlock"
+  | PRwTryrdlock -> "pthread_rwlock_tryrdlock" | PRwWrlock -> "pthread_rwlock_wrlock"
+  | PRwTrywrlock -> "pthread_rwlock_trywrlock" | PRwUnlock -> "pthread_rwlock_unlock"
+  | PSemInit -> "sem_init" | PSemDestroy -> "sem_destroy" | PSemPost -> "sem_post" | PSemWait -> "sem_wait"
+  | PSemTrywait -> "sem_trywait"
+  | PCondDestroy -> "pthread_cond_destroy" | PCondSignal -> "pthread_cond_signal"
+  | PCondBroadcast -> "pthread_cond_broadcast" | PCondWait -> "pthread_cond_wait"
+  | PCondTimedwait -> "pthread_cond_timedwait"
+  | POnce -> "pthread_once" | PKeyCreate -> "pthread_key_create" | PKeyDelete -> "pthread_key_delete"
+  | PGetspecific -> "pthread_getspecific" | PSetspecific -> "pthread_setspecific" | PJoin -> "pthread_join"
+  | PBarrierInit -> "pthread_barrier_init" | PBarrierWait -> "pthread_barrier_wait"
+  | PBarrierDestroy -> "pthread_barrier_destroy"
+let pass_case line =
+  let name = String.trim line in
+  if name = "?" then   (* list the wrappers of the table, in table order *)
+    String.concat " " (List.map (fun f -> fst (List.find (fun (_, g) -> g = f) uv_names)) all_uvfn)
+  else match List.assoc_opt name uv_names with
+    | Some f -> String.concat " " (List.map (fun p -> p_name p ^ ":0") (passthrough_pre f)
+                                   @ [p_name (passthrough f) ^ ":1"])
+    | None -> "unknown"
+
 let () =
   let f = match Sys.argv.(1) with
+    | "pass" -> pass_case
     | "codes" -> codes_case | "stack" -> stack_case
     | "timed" -> timed_case add_wrap | "timedfix" -> timed_case add_sat
     | "bar" -> bar_case | "sem" -> sem_case
